@@ -348,6 +348,9 @@ func (w *World) Connect(cfg ClientCfg) (*Client, error) {
 		cfg.Transport = "polling"
 	}
 	c := &Client{W: w, Cfg: cfg, postSem: make(chan struct{}, 1)}
+	w.mu.Lock()
+	w.clients = append(w.clients, c)
+	w.mu.Unlock()
 	var first []refcodec.Packet
 	switch cfg.Transport {
 	case "polling":
@@ -412,7 +415,9 @@ func (c *Client) dialWS(withSid bool) error {
 		}
 		return fmt.Errorf("ws dial: %w", err)
 	}
+	c.mu.Lock()
 	c.WS = conn
+	c.mu.Unlock()
 	return nil
 }
 
@@ -439,8 +444,10 @@ func (c *Client) WSWriteRaw(binary bool, data []byte) error {
 // engine the way OnWebTransportSession does after it has read the handshake message.
 func (c *Client) openWT(upgrade bool) error {
 	cs, ss := fakenet.StreamPipe()
+	c.mu.Lock()
 	c.WTStream, c.WTServerStream = cs, ss
 	c.WT = webtrans.NewConn(nil, cs, false, 0, 0, nil, nil, nil)
+	c.mu.Unlock()
 	srvConn := webtrans.NewConn(nil, ss, true, 0, 0, nil, nil, nil)
 	srvConn.SetReadLimit(c.W.Eng.Opts().MaxHttpBufferSize())
 	c.W.Gate.Watch(ss)
@@ -571,8 +578,11 @@ func (c *Client) Send(ps ...refcodec.Packet) error {
 	c.mu.Lock()
 	tr := c.Cfg.Transport
 	c.mu.Unlock()
+	c.mu.Lock()
+	hasWS, hasWT := c.WS != nil, c.WT != nil
+	c.mu.Unlock()
 	switch {
-	case c.WS != nil && tr == "websocket":
+	case hasWS && tr == "websocket":
 		for _, p := range ps {
 			b, d := refcodec.EncodeFrame(c.Cfg.Rev, p, c.Cfg.B64)
 			if err := c.WSWriteRaw(b, d); err != nil {
@@ -580,7 +590,7 @@ func (c *Client) Send(ps ...refcodec.Packet) error {
 			}
 		}
 		return nil
-	case c.WT != nil && tr == "webtransport":
+	case hasWT && tr == "webtransport":
 		for _, p := range ps {
 			b, d := refcodec.EncodeFrame(4, p, c.Cfg.B64)
 			if err := c.WTWriteRaw(b, d); err != nil {
